@@ -53,15 +53,28 @@ def gen_cyclic(rng, kind):
   fine = None
   if kind == 'false':
     n = rng.randint(2, 3)
-    x = d.new_sig('', 'x', n * w, 'wire')
+    if rng.random() < 0.4:
+      # the sliced signal is a FIELD of a bitstruct wire: the watched variables are then slices of a struct field (a slice
+      # of a plain Bits wire is widened to the whole wire by the schedulers, a slice of a field is not)
+      flds = [('g', w), ('f', n * w)]
+      rng.shuffle(flds)
+      sx = rtlgen.StructT(f'SX{d.uid}', flds)
+      xs_ = d.new_sig('', 'xs', 0, 'wire', sx)
+      fo = next(lo for (p_, lo, ww, _) in sx.named() if p_ == 'f')
+      class _Fld:          # a view of field f of xs with the interface of a signal (idx, width) for the code below
+        idx = xs_.idx; width = n * w; off = fo
+      x = _Fld
+    else:
+      x = d.new_sig('', 'x', n * w, 'wire')
+      x.off = 0
     ys = [d.new_sig('', f'y{i}', w, 'wire') for i in range(n - 1)]
     # block A writes all slices of x: slice 0 from the input, slice i from y[i-1]; block Bi: y[i] = f(x slice i)
-    asgs = [((x.idx, 0, w), fn1(rng, w, R(i0)))]
-    for i in range(1, n): asgs.append(((x.idx, i * w, w), fn1(rng, w, R(ys[i - 1]))))
+    asgs = [((x.idx, x.off, w), fn1(rng, w, R(i0)))]
+    for i in range(1, n): asgs.append(((x.idx, x.off + i * w, w), fn1(rng, w, R(ys[i - 1]))))
     if rng.random() < 0.5: asgs.reverse()
     blk(asgs)
-    for i in range(n - 1): blk([((ys[i].idx, 0, w), fn1(rng, w, R(x, i * w, w)))])
-    blk([((out.idx, 0, w), ('b', 'xor', w, R(x, (n - 1) * w, w), R(i1)))])
+    for i in range(n - 1): blk([((ys[i].idx, 0, w), fn1(rng, w, R(x, x.off + i * w, w)))])
+    blk([((out.idx, 0, w), ('b', 'xor', w, R(x, x.off + (n - 1) * w, w), R(i1)))])
     expect = 'value'
   elif kind == 'conv':
     a = d.new_sig('', 'a', w, 'wire'); b = d.new_sig('', 'b', w, 'wire')
